@@ -380,6 +380,31 @@ pub fn c17(a: &Args) -> i32 {
                                  "server_saw": seen, "alive": alive}));
             }
         }
+        // long method paths: whatever the server answers (method-not-found echoing the path, or its
+        // replacement) must itself respect the limit and carry the request's id
+        if limit > 0 {
+            for qlen in [limit / 2, limit - 300, limit - 200, limit - 120, limit - 60] {
+                for (route, sock_is_proxy) in [("unknown", false), ("unknown", true)] {
+                    id += 1;
+                    let path = format!("/{}", "p".repeat(qlen - 1));
+                    let sock: &mut Ws = if sock_is_proxy { &mut pws } else { &mut ws };
+                    ws_send(sock, &Message::builder().id(id).query_str(&path).body_json(&json!({"frame": 100})).unwrap().build());
+                    let mut observed = vec![];
+                    let (mut ec, mut same_id) = (-1i64, false);
+                    if let Some((rid, rec, _, _, len)) = ws_next(sock, Duration::from_secs(5)) {
+                        observed.push(len);
+                        ec = rec as i64;
+                        same_id = rid == id;
+                    }
+                    id += 1;
+                    ws_send(sock, &Message::builder().id(id).query_str("/big").body_json(&json!({"frame": 80})).unwrap().build());
+                    let alive = matches!(ws_next(sock, Duration::from_secs(5)), Some((rid, 0, _, _, _)) if rid == id);
+                    n_cases += 1;
+                    out.push(&json!({"ev": "guard", "path": if sock_is_proxy { "proxy_longpath" } else { "longpath" }, "kind": "bounded", "limit": limit, "size": qlen, "route": route,
+                                     "observed": observed, "ec": ec, "same_id": same_id, "alive": alive}));
+                }
+            }
+        }
         let _ = ws.close(None);
     }
     out.finish();
